@@ -39,14 +39,54 @@ def skeleton(f, n, out, names=None):
         skeleton(f, c, out, names)
 
 
+def effect_paths(prog, f):
+    """set of (sorted calls to sibling members and row-level helpers, outcome) over all abstract paths of f; conditions are free choices"""
+    from bsv.dtab import TOP, Interp, Model, Sym
+
+    class M(Model):
+        def initial_store(self, it, key):
+            return TOP
+
+        def compare(self, it, fr, n, op, a, b):
+            return Sym(('GUARD', 'C@%s' % n.get('i')))
+
+        def primitive(self, it, fr, n, callee, depth):
+            obj, args = it.call_args(fr, n)
+            for x in args:
+                it.ev(fr, x, depth)
+            if obj is not None:
+                it.ev(fr, obj, depth)
+            if callee.get('repo') and callee['q'].startswith(NS):
+                it.act('CALLS', callee['n'])
+            elif callee['n'] in ('push_back', 'append', 'Write', 'write', 'clear'):
+                it.act('CALLS', callee['n'])
+            return TOP
+
+    it = Interp(prog, M(), max_depth=0, max_paths=4000)
+
+    def init(it_, fr):
+        for p in f.params:
+            fr.env[p['d']] = TOP
+    out = set()
+    for p in it.run(f, init):
+        calls = tuple(sorted(set(a[1] for a in p.actions if a[0] == 'CALLS')))
+        if p.outcome[0] == 'THROW':
+            o = 'throw ' + str(p.outcome[1])
+        else:
+            v = p.outcome[1]
+            o = 'return %s' % (int(v) if isinstance(v, (int, bool)) else ('void' if v is None else 'value'))
+        out.add((calls, o))
+    return out
+
+
 def one(prog, q):
     fs = [f for f in prog.funcs.values() if f.q == q]
     return fs
 
 
 def run(prog, rep):
-    rep.rule('R10.3', 'CSV memory/stream twins with identical logic (ParseNextRow of the readers, WriteValue of the writers) have equal '
-                      'statement skeletons modulo the buffer renaming', floor=2)
+    rep.rule('R10.3', 'CSV memory/stream twins with identical logic (ParseNextRow of the readers, WriteValue of the writers) have the same set of '
+                      'abstract paths (member calls made, exception thrown, value returned)', floor=2)
     rep.rule('R10.4', 'both CSV writers terminate the header and every row with CR LF and apply the same row-width check', floor=2)
     for a, b, name in (('CCsvStringReader', 'CCsvStreamReader', 'ParseNextRow'), ('CCsvStringWriter', 'CCsvStreamWriter', 'WriteValue')):
         fa, fb = one(prog, NS + a + '::' + name), one(prog, NS + b + '::' + name)
@@ -57,12 +97,17 @@ def run(prog, rep):
         skeleton(fb[0], fb[0].body, sb)
         rep.touch(fa[0])
         rep.touch(fb[0])
-        if sa == sb:
-            rep.ok('R10.3', name, sample={'twins': '%s / %s :: %s' % (a, b, name), 'skeleton_tokens': len(sa)})
+        # Equal token skeletons are sufficient but not necessary (a one-sided refactoring keeps the behaviour and changes the tokens), so the
+        # verdict is taken on the sets of abstract paths: which member functions are called, what is thrown, what is returned.
+        pa, pb = effect_paths(prog, fa[0]), effect_paths(prog, fb[0])
+        if pa == pb:
+            rep.ok('R10.3', name, sample={'twins': '%s / %s :: %s' % (a, b, name), 'abstract_paths': len(pa), 'same_token_skeleton': sa == sb})
         else:
-            i = next((i for i, (x, y) in enumerate(zip(sa, sb)) if x != y), min(len(sa), len(sb)))
-            rep.finding('R10.3', name, fb[0].loc(), '%s::%s and %s::%s have diverged (first difference at token %d: %s vs %s)'
-                        % (a, name, b, name, i, sa[i] if i < len(sa) else '<end>', sb[i] if i < len(sb) else '<end>'), func=fb[0].id)
+            only_a, only_b = sorted(pa - pb), sorted(pb - pa)
+            rep.finding('R10.3', name, fb[0].loc(), '%s::%s and %s::%s have diverged: path(s) only in the memory version %s, only in the stream version %s'
+                        % (a, name, b, name, only_a[:2], only_b[:2]), func=fb[0].id)
+        if sa != sb:
+            rep.note('%s / %s :: %s: token skeletons differ (same abstract paths) - informational' % (a, b, name))
     for cls in ('CCsvStringWriter', 'CCsvStreamWriter'):
         fs = one(prog, NS + cls + '::NextLine')
         if len(fs) != 1:
